@@ -96,13 +96,13 @@ def server_actions(ids, tier):
 
 def client_actions(ids, tier):
     acts = [("bind_simple", ()), ("extended_request", ()), ("search_request", ()), ("unbind", ()), ("drain", (None,)), ("drain", (1,)),
-            ("recv", ("notice", 0)), ("recv", ("garbage", 0)), ("recv", ("req", 1))]
+            ("recv", ("notice", 0)), ("recv", ("garbage", 0)), ("recv", ("req", 1)), ("recv", ("ext", 0))]
     for i in ids:
         acts += [("recv", ("bindok", i)), ("recv", ("bindsasl", i)), ("recv", ("entry", i)), ("recv", ("done", i)), ("recv", ("ext", i))]
         if tier == "thorough":
             acts += [("recv", ("ref", i))]
     if tier == "thorough":
-        acts += [("drain", (1000,)), ("recv", ("ext", 0)), ("bind_sasl", ())]
+        acts += [("drain", (1000,)), ("bind_sasl", ())]
     return acts
 
 
